@@ -346,6 +346,14 @@ func (e *Env) eval(x Expr) (*Val, error) {
 		if err != nil {
 			return nil, err
 		}
+		if xv.T != nil && xv.Typ != nil && n.Lo == nil && n.Hi == nil {
+			if pt, ok := xv.Typ.Underlying().(*types.Pointer); ok {
+				if _, isArr := pt.Elem().Underlying().(*types.Array); isArr {
+					v := c.arraySnapshot(e.st, xv.T, pt.Elem())
+					return &Val{T: v.T, Typ: types.NewSlice(pt.Elem().Underlying().(*types.Array).Elem())}, nil
+				}
+			}
+		}
 		if xv.T != nil && xv.T.Sort == SSl {
 			lo := intLit(0)
 			hi := tApp(SInt, "slen", xv.T)
@@ -503,7 +511,14 @@ func (e *Env) objectVal(obj types.Object) (*Val, error) {
 	case *types.Nil:
 		return scalar(tNull, types.Typ[types.UntypedNil]), nil
 	case *types.Func:
-		return &Val{Typ: o.Type(), Clo: nil, T: nil, Fs: nil, Loc: nil}, fmt.Errorf("function %s used as value", o.Name())
+		// a named function used as a value: the same constant the executor uses for it
+		name := smtName("func_" + o.FullName())
+		c.sc.declareConst(name, SV)
+		if !c.sc.declSeen["nn:"+name] {
+			c.sc.declSeen["nn:"+name] = true
+			c.sc.assert(mk(SBool, "(and (not (= %s null)) (< (birth %s) 0))", name, name))
+		}
+		return &Val{T: &Term{name, SV}, Typ: o.Type()}, nil
 	}
 	return nil, fmt.Errorf("cannot use %s here", obj)
 }
@@ -1083,6 +1098,20 @@ func (e *Env) evalCall(n *ECall) (*Val, error) {
 			}
 			c.unsup = c.unsup[:nUnsup]
 			return scalar(tAnd(parts...), boolT), nil
+		case "padcopy":
+			// padcopy(s, n): the contents of a zeroed [n]byte after copy(arr[:], s), viewed as a slice
+			a, err := e.evalArgs(n.Args)
+			if err != nil {
+				return nil, err
+			}
+			if len(a) != 2 || a[0].T == nil || a[0].T.Sort != SSl {
+				return nil, fmt.Errorf("padcopy([]byte, n)")
+			}
+			var nn int64
+			if _, err := fmt.Sscanf(a[1].T.S, "%d", &nn); err != nil {
+				return nil, fmt.Errorf("padcopy: n must be a literal")
+			}
+			return &Val{T: c.arr2sl(c.copyInto(c.zeroArr(SInt), a[0].T, nn, SInt), nn, SInt), Typ: types.NewSlice(types.Typ[types.Byte])}, nil
 		case "trunc":
 			// float64 -> int64 conversion as Go does it (toward zero)
 			a, err := e.evalArgs(n.Args)
@@ -1116,6 +1145,8 @@ func (e *Env) evalCall(n *ECall) (*Val, error) {
 			return fr.convert(nil, a[0], types.NewSlice(types.Typ[types.Byte]), types.Typ[types.String]), nil
 		case "nobytes":
 			return scalar(c.mkSlice(SInt, nil), types.NewSlice(types.Typ[types.Byte])), nil
+		case "nilbytes":
+			return scalar(&Term{"nilsl", SSl}, types.NewSlice(types.Typ[types.Byte])), nil
 		case "$visited":
 			// $visited(k): key k has already been produced by the range-over-map loop this invariant belongs to
 			if e.frame == nil || e.blk == nil || len(n.Args) != 1 {
